@@ -1,7 +1,7 @@
 """C04 — generated text maps into the source span of the construct that generated it."""
 import t2t, corr, semrun, sem, cref
 
-OBLIGATIONS = ['Yalafi.C04_latexError_anchor', 'Yalafi.C04_restamp']
+OBLIGATIONS = ['Yalafi.C04_latexError_anchor', 'Yalafi.C04_restamp', 'Yalafi.C04_genRepl_anchor']
 
 def judge(case, res):
     fails = []
